@@ -217,6 +217,27 @@ WRAPS = {
 }
 WRAP_KINDS = sorted(WRAPS)
 
+# handlers placed around a link call: the exception of the callee is caught and another one (or the same) is raised from the handler
+HANDLERS = {
+    'from': "raise U1('w%d' % a) from e9",
+    'context': "raise U5('w')",
+    'from_none': "raise U1('w', 3) from None",
+    'reraise': 'raise',
+    'from_new_cause': "raise U1('w') from KeyError('c')",
+}
+
+
+def decorate(src, header, ind, n):
+  """Puts n pass-through decorators (12 = two, the first spanning three lines) before the def `header`."""
+  if not n:
+    return src
+  if n == 12:
+    decs = ['@deco(', '    31)', '@deco(32)']
+  else:
+    decs = ['@deco(%d)' % (30 + i) for i in range(n)]
+  text = ''.join(ind + d + '\n' for d in decs)
+  return src.replace('\n' + ind + header, '\n' + text + ind + header, 1)
+
 
 def wrap(text, kinds):
   """Nests `text` inside the given compound statements (first kind = innermost)."""
@@ -361,12 +382,15 @@ def specs(draw, b):
   for i in range(ncal + 1):
     nw = draw(st.sampled_from([0, 0, 1, 1, 2, 2, 3] if i == ncal else [0, 0, 0, 1, 2]))
     wraps.append([draw(st.sampled_from(WRAP_KINDS)) for _ in range(nw)])
+  # pass-through decorators on the chain functions (index 0 = prog) and a handler around link calls
+  decos = [draw(st.sampled_from([0, 0, 0, 1, 2, 2, 3, 12])) for _ in range(ncal + 1)]
+  handlers = [draw(st.sampled_from([None] * 7 + sorted(HANDLERS))) for _ in range(ncal)]
   # the program text is drawn last: the small choices above keep their distribution whatever the
   # size of the program that follows
   src, meta = _draw_module(draw, cfg, ncal, b.get('kbudget', 8))
   return {
       'src': src, 'meta': meta, 'ncal': ncal, 'links': links, 'fail': fail, 'excluded': excluded,
-      'marked': marked, 'input': inp, 'posseeds': posseeds, 'prefer': prefer, 'wraps': wraps,
+      'marked': marked, 'input': inp, 'posseeds': posseeds, 'prefer': prefer, 'wraps': wraps, 'decos': decos, 'handlers': handlers,
       'config': {'recursive': recursive, 'features': features},
   }
 
@@ -665,6 +689,9 @@ def build(spec):
         form = lk['form']
       if form == 'return' and ('finally' in kinds):
         text = 'q7 = ' + text[len('return '):]
+      hk = None if last else (spec.get('handlers') or [None] * (level + 1))[level]
+      if hk:
+        text = 'try:\n' + '\n'.join('    ' + x for x in text.split('\n')) + '\nexcept Exception as e9:\n    ' + HANDLERS[hk]
       wr = list(spec.get('wraps', [[]] * (level + 1))[level])
       if 'finally' in kinds:
         wr = [k for k in wr if k != 'after_return']   # no return inside finally (out of guarantee)
@@ -689,7 +716,12 @@ def build(spec):
       finally:
         harness.unload_module(mod)
       if last:
-        ok = exc is not None and U and U[-1][0] in range(ln, ln + nlines) and type(exc).__name__ == spec['fail']['exc']
+        inner = exc
+        while inner is not None and inner.__context__ is not None and any(spec.get('handlers') or []):
+          inner = inner.__context__
+        if inner is not exc:
+          U = user_frames(inner, fname_mod)
+        ok = inner is not None and U and U[-1][0] in range(ln, ln + nlines) and type(inner).__name__ == spec['fail']['exc']
       else:
         nlo, nhi = fn_ranges(ast.parse(new_src))[chain[level + 1]]
         ok = exc is None and any(nlo < x <= nhi for x in seen2)
@@ -707,8 +739,12 @@ def build(spec):
   for i, lk in enumerate(spec['links']):
     if lk['kind'] == 'dnc':
       src = src.replace('\ndef k%d(' % (i + 1), '\n@DNC\ndef k%d(' % (i + 1))
+  decos = spec.get('decos') or [0] * len(chain)
+  src = decorate(src, 'def prog(', '  ', decos[0])
+  for i in range(1, len(chain)):
+    src = decorate(src, 'def k%d(' % i, '', decos[i])
   case = {'src': src, 'input': inp, 'chain': chain, 'links': [lk['kind'] for lk in spec['links']], 'config': spec['config'],
-          'marked': spec['marked']}
+          'marked': spec['marked'], 'handlers': list(spec.get('handlers') or []), 'decos': list(decos)}
   return case, 'ok', binfo
 
 
@@ -963,8 +999,13 @@ def run_case(case):
       else:
         segs[-1][1].append(fr)
     chain = case.get('chain')
-    if chain and [s[0] for s in segs] == chain:
-      conv = predict_converted(chain, case['links'], cfgd.get('recursive', True))
+    owners = [s[0] for s in segs]
+    # a handler around a link call that raises a new exception ends the traceback in that link's caller
+    cut = chain and any(case.get('handlers') or []) and 0 < len(owners) < len(chain) and owners == chain[:len(owners)]
+    if chain and (owners == chain or cut):
+      conv = predict_converted(chain, case['links'], cfgd.get('recursive', True))[:len(owners)]
+      chain = chain[:len(owners)]
+      info['cut'] = bool(cut)
       info['nconv'] = sum(conv) - 1
       info['conv'] = conv
       want = [segs[i][1] for i in range(len(segs)) if conv[i]]
@@ -1021,6 +1062,10 @@ def shard(ctx, acc):
                'type_rule=' + info.get('type_rule', '-'), 'recursive=%s' % case['config']['recursive'],
                'features=' + '+'.join(case['config']['features']), 'marked=%s' % case['marked']]
     classes += ['link=' + k for k in set(case['links'])]
+    classes += ['handler=' + h for h in set(case.get('handlers') or []) if h]
+    classes += ['decorators=%d' % d for d in set(case.get('decos') or []) if d]
+    if info.get('cut'):
+      classes.append('traceback_ends_in_handler_of_link_call')
     classes += ['callform=' + lk['form'] for lk in spec['links']]
     classes += ['in:' + k for k in binfo.get('kinds', [])]
     if binfo.get('early'):
